@@ -73,11 +73,13 @@ theorem gen_util_stats {K : Type} [Num K] [LT K] [DecidableLT K] (absf sqrtf : K
 /-- (TRANSLATED) the statistics select their samples with `isfinite`: NaN, +inf and -inf are all invalid -/
 theorem gen_util_valid_is_finite : Generated.C12.utilValidIsFinite = true := by decide
 
-/-- (TRANSLATED) tilt removal fits the columns `(x, y)` without a constant and subtracts both; power removal fits
-    `(rho^2, 1)` and subtracts only the first — the two cases `tilt_removal_idempotent` / `power_removal_idempotent` are about -/
+/-- (TRANSLATED: the returned surfaces of `fit_plane` / `fit_sphere` evaluated symbolically as polynomials in the design columns
+    and the fitted coefficients) tilt removal fits the columns `(x, y)` without a constant and subtracts exactly
+    `c0*x + c1*y`; power removal fits `(rho^2, 1)` and subtracts exactly `c0*rho^2` — the two cases `tilt_removal_idempotent` / `power_removal_idempotent` are about -/
 theorem gen_removal_columns :
     Generated.C12.tiltRemovedColumns = [0, 1] ∧ Generated.C12.powerRemovedColumns = [0] ∧
-    Generated.C12.tiltDesignHasConstant = false ∧ Generated.C12.powerDesignHasConstant = true := by decide
+    Generated.C12.tiltDesignHasConstant = false ∧ Generated.C12.powerDesignHasConstant = true ∧
+    Generated.C12.removedSurfacesAreFittedColumns = true := by decide
 
 /-! ## coherence for every history -/
 
